@@ -9,6 +9,11 @@ CLAIMED = {
    text="TLC checks compute-at-most-once, no placeholder visible, linearizability, deadlock freedom and termination under fairness on an implementation-shaped specification for every program of 2 goroutines x <=2 ops and 3 x 1 over 2 keys; the binding to the code is two-way: simulated TLC behaviours are forced step by step on the real LazySyncMap (gate reached compared with the model pc, outcomes compared), and every real execution (forced, exhaustively enumerated for all 2x1 programs, budgeted DFS for 3x1, random, free-running) is validated by TLC against the declarative atomic-map trace specification. Model checking is the right level: the property quantifies over schedules of a tiny state machine.",
    note="sync.Map and sync.WaitGroup are trusted; the controller sequentialises executions at the yield points, so interleavings inside one atomic step are not explored; bounds as in the cfg files",
    design="5/C18"),
+ "C19": dict(
+   technique="TLA+ spec D2.tla (explicit snapshot heap, fold of the event history, declarative Eligible vs operational chooseHost) model-checked by TLC; all histories of the bound exported by TLC and replayed on the real client with every earlier snapshot re-inspected; random real histories trace-validated by TLC",
+   text="TLC checks on every history of the bound that the current snapshot is the fold of the history, that earlier snapshot objects never change, and that the operational host choice equals the declarative eligible set for every prioritized-scheme list. Every such history (plus simulated longer ones) is replayed through the real client's event loops; after each event the current snapshot and all snapshots captured earlier are compared with the model's objects and resolution is exercised with scripted random draws. Random histories with richer data are logged from the real client and validated by TLC against D2.tla (invariants evaluated on every observed state). Proportionality is a 6-sigma frequency test against the model's exact distribution.",
+   note="events are injected below the ZooKeeper connection (TreeCache not exercised); integer weights; the measure-zero draw r=0 excluded; proportionality is statistical",
+   design="5/C19"),
 }
 
 NOT_YET = {}
